@@ -250,10 +250,10 @@ def run(chk):
                 "observed: bytes logged by trials that do not set their flags differ between runs (%d distinct vectors); "
                 "digests identical" % len(aux)) if len(aux) > 1 else "not observed in this run"
     # ---- generated scenarios ---------------------------------------------
-    total = 1500 if quick else 12000
+    total = 1200 if quick else 12000
     groups = [[sc] for sc in expcorr.generate(chk.seed, total, flips_ok)]
     groups += [[sc] for sc in expcorr.stress(chk.seed, 40 if quick else 400)]
-    groups += expcorr.generate_groups(chk.seed, 150 if quick else 1500, flips_ok)
+    groups += expcorr.generate_groups(chk.seed, 120 if quick else 1500, flips_ok)
     groups += expcorr.stress_groups(chk.seed, 10 if quick else 100)
 
     def work(grp):
